@@ -87,9 +87,12 @@ CLAIMS = {
         "text": "Lean theorems: |exp_term dt lambda| = exp(dt Re lambda) (regenerated code), <=1 / =1 / <1 by the sign of Re lambda; "
                 "Re of the documented symbols: advection and dispersion (both forms) 0, diffusion <=0 for PSD matrices, "
                 "hyper-diffusion (both forms) real <=0 and <0 off the mean mode, general linear family; Parseval in the half layout "
-                "(all D, N) and contraction of the weighted spectral energy; wave energy per mode conserved; per-step bound lifts "
-                "to any rollout. The c2r projection step for non-Hermitian spectra is not proved (named in Properties/C11). "
-                "Correspondence: linear steppers on white noise with dt up to 1e6 vs the model.",
+                "(all D, N); the c2r transform is a contraction for ANY stored spectrum (Pythagoras identity), hence the whole step "
+                "irfftn(E0step(exp_term dt L) rfftn u) of the regenerated code never increases the grid 2-norm of ANY real state "
+                "(white noise, Nyquist content) for all D>=1, N>=1, dt>=0, Re L<=0, and neither does any state of any rollout; exact "
+                "energy budget (damping + projection loss); norm preserved iff E is Hermitian-consistent or the state has no content "
+                "on each self-conjugate mode (odd grids / Nyquist-free states), with a proved strict-loss example at the Nyquist mode; "
+                "wave energy per mode conserved. Correspondence: linear steppers on white noise with dt up to 1e6 vs the model.",
         "technique": "Lean 4 proof (norm of the propagator, symbol signs, Parseval) + correspondence",
         "design_ref": "DESIGN.md §5 C11",
     },
@@ -194,15 +197,18 @@ CLAIMS = {
         "design_ref": "DESIGN.md §5 C07",
     },
     "C08": {
-        "text": "Lean theorems: forward and inverse shift theorem of the model transform (1-D, every N>=1, any stored spectrum), "
-                "translation equivariance of every nonlinear term of the model (conservative / non-conservative / single-channel "
-                "convection, polynomial, gradient norm, general, Cahn-Hilliard; arbitrary state, mask and scales), of every "
-                "regenerated ETDRK stage formula (orders 0-4, arbitrary coefficients), of n steps and of rollouts, closing with "
-                "the physical-space statement roll(step^n u) = step^n(roll u) for ETDRK4 + convection; axis permutation and "
-                "1-D embedding at the level of the symbols for every D and of the stage formulas for arbitrary mode relabellings. "
-                "Not proved in Lean: the n-D roll of the transform and reflections (correspondence of each stepper with the "
-                "model + oracle on the implementation: integer shifts per axis, axis swaps with permuted anisotropic coefficients, "
-                "reflections with sign rules, 1-D embedding).",
+        "text": "Lean theorems: forward and inverse shift theorem of the model transform for every D, every shift vector, every "
+                "N>=1, any stored spectrum; every linear stepper irfftn(E0step(E) rfftn u) commutes with n-D rolls for n steps and "
+                "whole rollouts on arbitrary states; reflection conjugates the spectrum of a real state and maps the stepper with "
+                "factors E to the one with conj E (all D); 2-D transposition with permuted anisotropic symbols under the Nyquist-sign "
+                "hypothesis, and a proved counterexample without it (the property's own caveat for odd-order terms on even grids); "
+                "1-D: translation equivariance of every nonlinear term of the model (conservative / non-conservative / "
+                "single-channel convection, polynomial, gradient norm, general, Cahn-Hilliard; arbitrary state, mask and scales), of "
+                "every regenerated ETDRK stage formula (orders 0-4, arbitrary coefficients), of n steps and rollouts, with the "
+                "physical-space capstone for ETDRK4 + convection; axis permutation and 1-D embedding at the level of the symbols for "
+                "every D and of the stage formulas for arbitrary mode relabellings. Not proved in Lean: nonlinear terms for D>=2 and "
+                "3-D axis permutations at the transform level (correspondence of each stepper with the model + oracle on the "
+                "implementation: integer shifts per axis, axis swaps with permuted anisotropic coefficients, reflections, embedding).",
         "technique": "Lean 4 proof (DFT shift theorem + equivariance of model terms and translated stage formulas) + correspondence",
         "design_ref": "DESIGN.md §5 C08",
     },
